@@ -76,6 +76,16 @@ def check(trace_files, tag, limit=0, workers=6):
     d = orch.fresh_dir("regconf-" + tag)
     jobs = [(name, lines, d) for name, lines in split_traces(trace_files)]
     total = len(jobs)
+    if limit:
+        # quick tier: the sample is drawn from the histories with at most five tunnels (six tunnels registering together
+        # cost 2-3 M states each; the thorough tier checks every history)
+        def small(j):
+            try:
+                red = reduce(j[1])
+                return red is None or len(red[0]["tunnels"]) <= 5
+            except Exception:
+                return True
+        jobs = [j for j in jobs if small(j)] or jobs
     if limit and len(jobs) > limit:
         step = len(jobs) / float(limit)
         jobs = [jobs[int(i * step)] for i in range(limit)]
